@@ -112,11 +112,39 @@ class Check:
             if not c.verify and c.target in getattr(eng, "assumed_contracts", set()):
                 self.assumptions.append(f"assumed contract (not proved): {c.target} - {c.note}")
         timeout_s = timeout_s or (30 if self.tier == "quick" else 120)
+        if "list.remove/ascending" in getattr(eng, "engine_lemmas", set()):
+            from .lemmas import remove_lemmas
+            from .engine import Obligation
+            eng.obligations += [Obligation(oid=f"lemma/{lid}", kind="lemma", hyps=tuple(h), goal=g, target="lemma", probes=dict(pr))
+                                for lid, h, g, pr in remove_lemmas()]
         t_gen = time.time() - self.t0
         smt.discharge(eng.obligations, timeout_s=timeout_s)
         self.obligations += eng.obligations
         self.notes.append(f"phase times: VC generation {t_gen:.1f}s, solving {time.time() - self.t0 - t_gen:.1f}s")
         return eng
+
+    def replay_refuted(self):
+        """replay every refuted obligation on the real code through the contract's replay builder"""
+        for o in self.obligations:
+            if o.result != "REFUTED":
+                continue
+            con = C.REGISTRY.get(o.target)
+            if con is None or con.replay is None:
+                continue
+            try:
+                r = con.replay(o.model, o)
+            except Exception as ex:   # replay harness failure = undecided, never a violation
+                o.note += f" | replay failed: {type(ex).__name__}: {ex}"
+                continue
+            if r is None:
+                continue
+            if r.get("violates"):
+                self.finding(o.oid, r.get("what", "contract violated on the real code at the solver's counterexample"),
+                             inputs=r.get("inputs"), observed=r.get("observed"), expected=r.get("expected"), cmd=r.get("cmd"),
+                             solver_output={"model": o.model}, key=r.get("key") or o.oid.split("#")[0])
+            else:
+                o.result = "UNKNOWN"
+                o.note += " | spurious: the real code satisfies the contract at the solver's counterexample"
 
     def lemmas(self, lemma_list, timeout_s=None):
         """lemma_list: [(id, hyps(list of z3), goal)] - pure SMT lemmas over contract clauses and spec definitions"""
